@@ -95,7 +95,13 @@ CHECKS.update({
         "DESIGN.md §5 C20"),
  "C02": bounded_only("generated paragraphs and multi-paragraph documents are dumped and re-parsed in six input forms x {plain, clearsigned} x "
         "{comments interleaved or not}, through the constructor and iter_paragraphs;", "DESIGN.md §5 C02"),
- "C04": bounded_only("texts generated from the deb-changelog(5) grammar with known components are parsed strictly with warnings as errors; "
+ "C04": dict(bounded_only("", "DESIGN.md §5 C04"),
+        text="Language lemmas about the real changelog patterns are proved for all lines by SMT (well-formed headers match topline, topline "
+             "matches contain ';', trailer head and date are accepted by endline's parts, change / blank / header / trailer lines cannot be "
+             "confused). The parser state machine and the formatter (byte-identical round trip, exposed components) are decided by a bounded "
+             "stand-in on texts generated from the deb-changelog(5) grammar.",
+        technique="regex-to-SMT language lemmas on the real patterns + bounded stand-in (grammar-generated texts)"),
+ "C04-old": bounded_only("texts generated from the deb-changelog(5) grammar with known components are parsed strictly with warnings as errors; "
         "str() must be byte-identical and the blocks must expose the written components;", "DESIGN.md §5 C04"),
  "C07": bounded_only(".deb files assembled in memory over 5x5 compressions, member orders, script subsets, md5sums with spaces in names, binary "
         "contents, dot files are read back in three spellings; structurally defective member sets must raise DebError;", "DESIGN.md §5 C07",
